@@ -54,6 +54,8 @@ func tagOf(f *frame.Frame) string {
 		if len(m.Data) == 1 && len(m.Data[0]) == 1 {
 			return string(m.Data[0][0])
 		}
+	case *message.Ready:
+		return "ready"
 	}
 	return fmt.Sprintf("?%T", f.Body.Message)
 }
@@ -255,6 +257,7 @@ type c10Spec struct {
 	PagesPer    []int // pages per request (DSE versions only may be > 1)
 	Batch       bool  // v5: all responses in as few segments as possible
 	MaxPending  int
+	Ready       []bool // request i is answered by a READY (an envelope that is nothing but a header) instead of a tagged result
 }
 
 func c10Session(args []string, _ []byte) string {
@@ -358,7 +361,9 @@ func c10Session(args []string, _ []byte) string {
 			default:
 				sent[o]++
 				tag := fmt.Sprintf("r%d.p%d", o, sent[o])
-				if spec.PagesPer[o] == 1 {
+				if spec.PagesPer[o] == 1 && o < len(spec.Ready) && spec.Ready[o] {
+					f = frame.NewFrame(v, streamOf[o], &message.Ready{})
+				} else if spec.PagesPer[o] == 1 {
 					f = taggedFinal(v, streamOf[o], tag)
 				} else {
 					f = taggedPage(v, streamOf[o], tag, int32(sent[o]), sent[o] == spec.PagesPer[o])
@@ -433,7 +438,11 @@ func c10Session(args []string, _ []byte) string {
 	for _, o := range spec.Order {
 		if o >= 0 {
 			cnt[o]++
-			expected[o] = append(expected[o], fmt.Sprintf("r%d.p%d", o, cnt[o]))
+			if spec.PagesPer[o] == 1 && o < len(spec.Ready) && spec.Ready[o] {
+				expected[o] = append(expected[o], "ready")
+			} else {
+				expected[o] = append(expected[o], fmt.Sprintf("r%d.p%d", o, cnt[o]))
+			}
 		}
 	}
 	for i, r := range reqs {
@@ -544,6 +553,10 @@ func c10Socket(rt *rapid.T) {
 		for p := 0; p < spec.PagesPer[i]; p++ {
 			pool = append(pool, i)
 		}
+	}
+	spec.Ready = make([]bool, spec.K)
+	for i := range spec.Ready {
+		spec.Ready[i] = spec.PagesPer[i] == 1 && rapid.IntRange(0, 4).Draw(rt, fmt.Sprintf("ready%d", i)) == 0
 	}
 	for e := rapid.IntRange(0, 3).Draw(rt, "events"); e > 0; e-- {
 		pool = append(pool, rapid.SampledFrom([]int{-1, -1, -3, -4}).Draw(rt, "eventStreamId"))
